@@ -194,6 +194,17 @@ CHECKS = {
         design_ref="DESIGN.md §5 C04",
         note="Exploration over seeds. 'A correct type checker must reject' is judged by the spec's reference semantics.",
     ),
+    "C02": dict(
+        category="other",
+        technique="javac observed as the environment process of the driver model: TLA+ contract of Compile events (HJavac: PassOracle, "
+                  "BatchIndependent), TLC-generated batch schedules, real JavaTranslator + real javac 17 + real output analysis, recorded events "
+                  "validated by TLC (HJavacTrace)",
+        text="72 (quick) / 960 (thorough) Java programs - generated and erased - compiled alone and in TLC-chosen batches and orders; no "
+             "expected-pass file may be rejected and a file's verdict may not depend on its batch.",
+        design_ref="DESIGN.md §5 C02",
+        note="The property is by definition about javac's verdict; the spec contributes the oracle contract and the schedules, not a model of Java. "
+             "javac 17 is trusted.",
+    ),
 }
 
 NOT_YET = "check not built yet (work in progress in this session; see DESIGN.md §10 for the order of work)"
